@@ -83,7 +83,7 @@ func (h *CancelSrv) Sub(ctx context.Context, name string) (<-chan int, error) {
 type CancelCli struct {
 	HoldNote func(ctx context.Context, name string) error `notify:"true"`
 	Hold     func(ctx context.Context, name string) (string, error)
-	Sub  func(ctx context.Context, name string) (<-chan int, error)
+	Sub      func(ctx context.Context, name string) (<-chan int, error)
 	// SubA reaches Sub through a server-side alias
 	SubA func(ctx context.Context, name string) (<-chan int, error) `rpc_method:"alias.sub"`
 }
@@ -92,6 +92,7 @@ type CancelCli struct {
 func init() {
 	Register(&Scenario{
 		Name:        "cancel",
+		OptsToo:     true,
 		LazyDescToo: true,
 		LazyToo:     true,
 		DescToo:     true,
